@@ -55,6 +55,9 @@ type c17Case struct {
 	// cancellation (a slow backend); Serve may not return before it has finished.  The verdict is the order
 	// of events, the duration only says how long Serve was given to lose patience
 	HoldMs int `json:"hold_ms,omitempty"`
+	// EmptySecret: the secret provider hands out an empty (not nil) shared secret, as the reference keychain
+	// does for a configuration whose key is the empty string
+	EmptySecret bool `json:"empty_secret,omitempty"`
 }
 
 func genC17(t *rapid.T) c17Case {
@@ -67,6 +70,7 @@ func genC17(t *rapid.T) c17Case {
 		c.HoldMs = rapid.SampledFrom([]int{0, 0, 0, 0, 0, 10}).Draw(t, "handler_works_on_ms")
 	}
 	c.CallerCloses = rapid.IntRange(0, 3).Draw(t, "caller_closes_listener") == 0
+	c.EmptySecret = rapid.IntRange(0, 7).Draw(t, "empty_shared_secret") == 0
 	n := rapid.IntRange(0, 5).Draw(t, "nconns")
 	if c.Cancel == "in-accept" || c.Cancel == "in-handler" {
 		if n == 0 {
@@ -77,19 +81,21 @@ func genC17(t *rapid.T) c17Case {
 		var cc c17Conn
 		nops := rapid.IntRange(0, 4).Draw(t, "nops")
 		for j := 0; j < nops; j++ {
-			op := c17Op{Kind: rapid.SampledFrom([]string{"pkt", "pkt", "pkt", "partial", "eof", "reset", "badkey-trickle"}).Draw(t, "kind")}
+			op := c17Op{Kind: rapid.SampledFrom([]string{"pkt", "pkt", "pkt", "pkt-straddle", "partial", "eof", "reset", "badkey-trickle"}).Draw(t, "kind")}
 			switch op.Kind {
 			case "pkt":
 				op.Pieces = rapid.SampledFrom([]int{1, 1, 2, 3, 0}).Draw(t, "pieces")
 				op.Next = rapid.IntRange(0, 2).Draw(t, "leaves_session_open") == 0
 			case "partial":
 				op.Bytes = rapid.IntRange(1, 19).Draw(t, "bytes")
+			case "pkt-straddle":
+				op.Bytes = rapid.IntRange(1, 19).Draw(t, "straddle")
 			case "badkey-trickle":
 				op.Bytes = rapid.IntRange(0, 6).Draw(t, "trickled")
 				op.Pieces = rapid.SampledFrom([]int{0, 0, 5, 12, 40}).Draw(t, "behind_it")
 			}
 			cc.Ops = append(cc.Ops, op)
-			if op.Kind != "pkt" {
+			if op.Kind != "pkt" && op.Kind != "pkt-straddle" {
 				break // the connection is gone after a stall or EOF
 			}
 		}
@@ -168,6 +174,10 @@ func runC17(t failer, c c17Case) {
 	ln := transport.NewListener(log)
 	h := &c17Handler{log: log, hold: map[int]chan struct{}{}, next: map[int]bool{}, entered: make(chan int, 16)}
 	secret := []byte("k")
+	if c.EmptySecret {
+		ev.Class("empty-shared-secret")
+		secret = []byte{}
+	}
 	ctx, cancelCtx := context.WithCancel(context.Background())
 	cancelled := false
 	cancel := func() {
@@ -349,6 +359,23 @@ scripts:
 					}
 					// not closed (yet): the teardown below orders everything before Serve's return
 					// and the log oracle decides
+				}
+			case "pkt-straddle":
+				// two packets whose segmentation does not respect packet boundaries: the first arrives with
+				// the first octets of the second behind it, the rest of the second follows.  Every read the
+				// second one needs is preceded by its own read deadline (the log oracle checks)
+				ev.Class("segment-ends-inside-the-next-packet")
+				pktNo += 2
+				w1 := model.Frame(secret, model.Header{Version: 0xc0, Type: 1, Seq: 1, Session: uint32(pktNo - 1)}, consistentBody(1, 8, []byte{2}))
+				w2 := model.Frame(secret, model.Header{Version: 0xc0, Type: 1, Seq: 1, Session: uint32(pktNo)}, consistentBody(1, 8, []byte{2}))
+				conn.Feed(append(append([]byte{}, w1...), w2[:op.Bytes]...))
+				if !conn.AwaitQuiescentOrClosed(grace) {
+					undecided = fmt.Sprintf("connection %d neither quiescent nor closed after a packet", i)
+					break scripts
+				}
+				conn.Feed(w2[op.Bytes:])
+				if !conn.AwaitQuiescentOrClosed(grace) {
+					undecided = fmt.Sprintf("connection %d neither quiescent nor closed after a packet", i)
 				}
 			case "badkey-trickle":
 				// a request under the wrong key, with the beginning of the next request already behind it in
